@@ -184,7 +184,7 @@ end
 /-- the children of the list: the definitions `i, i+1, …`, plain below -/
 def ftNoteRoots : Nat → List FTree → Bool
   | _, [] => true
-  | i, .node tag _ cs :: rest => (tag == .footnote i || tag == .stray) && ftPlainL cs && ftNoteRoots (i + 1) rest
+  | i, .node tag _ cs :: rest => (tag == .footnote i || tag == .alien) && ftPlainL cs && ftNoteRoots (i + 1) rest
 
 mutual
 /-- outside the list: no Footnote tag; the children of a list are note roots -/
@@ -373,6 +373,7 @@ theorem docTreeF_body_ok (g : Bool) (refs : Option (List Bytes)) (env : GM.Inl.E
       exact ⟨n1, by rw [n4, hlen]⟩
     | footnote j => simp [ftBody] at hb
     | stray => cases h4
+    | alien => cases h4
     | plain =>
       simp only [ftBody] at hb
       have hk := blockKind_isBlk h4
@@ -425,7 +426,7 @@ theorem tagIn_body (f : FS) (id : Nat) :
     · left; simp [h2]
     · right; simp [h2]
 
-theorem tagIn_noteRoot (f : FS) (i id : Nat) : tagIn f (.noteRoot i) id = .footnote i ∨ tagIn f (.noteRoot i) id = .stray := by
+theorem tagIn_noteRoot (f : FS) (i id : Nat) : tagIn f (.noteRoot i) id = .footnote i ∨ tagIn f (.noteRoot i) id = .alien := by
   unfold tagIn
   simp only
   by_cases h : f.isFn id = true
@@ -444,7 +445,7 @@ theorem mapIdxFrom_length (g : Nat → Nat → FTree) : ∀ (k : Nat) (cs : List
   | k, c :: rest => by simp [mapIdxFrom, mapIdxFrom_length g (k + 1) rest]
 
 theorem ftNoteRoots_mapIdx (g : Nat → Nat → FTree)
-    (hg : ∀ i c, ∃ tag n cs, g i c = .node tag n cs ∧ (tag = .footnote i ∨ tag = .stray) ∧ ftPlainL cs = true) :
+    (hg : ∀ i c, ∃ tag n cs, g i c = .node tag n cs ∧ (tag = .footnote i ∨ tag = .alien) ∧ ftPlainL cs = true) :
     ∀ (k : Nat) (cs : List Nat), ftNoteRoots k (mapIdxFrom g k cs) = true
   | _, [] => rfl
   | k, c :: rest => by
@@ -482,7 +483,7 @@ theorem isList_iff (tag : FTag) : tag.isList = true ↔ tag = .list := by cases 
 theorem treeOfF_shape (f : FS) (nodes : List Blocks.Node) (L : Nat)
     (hL : ∀ id, f.list = some id → (nodes.getD id default).children.length = L) : ∀ fuel : Nat,
     (∀ id, ftBody (treeOfF f nodes fuel .body id) = true) ∧
-    (∀ i id, ∃ tag n cs, treeOfF f nodes fuel (.noteRoot i) id = .node tag n cs ∧ (tag = .footnote i ∨ tag = .stray) ∧
+    (∀ i id, ∃ tag n cs, treeOfF f nodes fuel (.noteRoot i) id = .node tag n cs ∧ (tag = .footnote i ∨ tag = .alien) ∧
       ftPlainL cs = true) ∧
     (∀ id, ftPlain (treeOfF f nodes fuel .note id) = true) ∧
     (∀ m id, ftListLen L (treeOfF f nodes fuel m id) = true)
@@ -518,6 +519,7 @@ theorem treeOfF_shape (f : FS) (nodes : List Blocks.Node) (L : Nat)
       | plain => simp [FTag.isList, ftListLen, ftListLenL]
       | footnote k => simp [FTag.isList, ftListLen, ftListLenL]
       | stray => simp [FTag.isList, ftListLen, ftListLenL]
+      | alien => simp [FTag.isList, ftListLen, ftListLenL]
   | fuel + 1 => by
     obtain ⟨ih1, ih2, ih3, ih4⟩ := treeOfF_shape f nodes L hL fuel
     refine ⟨?_, ?_, ?_, ?_⟩
@@ -559,6 +561,9 @@ theorem treeOfF_shape (f : FS) (nodes : List Blocks.Node) (L : Nat)
         simp only [FTag.isList, Bool.false_eq_true, if_false, ftListLen, Bool.not_false, Bool.true_or, Bool.true_and]
         exact ftListLenL_map L _ (fun c => ih4 _ c) _
       | stray =>
+        simp only [FTag.isList, Bool.false_eq_true, if_false, ftListLen, Bool.not_false, Bool.true_or, Bool.true_and]
+        exact ftListLenL_map L _ (fun c => ih4 _ c) _
+      | alien =>
         simp only [FTag.isList, Bool.false_eq_true, if_false, ftListLen, Bool.not_false, Bool.true_or, Bool.true_and]
         exact ftListLenL_map L _ (fun c => ih4 _ c) _
 
@@ -690,6 +695,7 @@ def FTree.clean : FTree → Bool
   | .node tag n cs =>
     (match tag with
       | .stray => false
+      | .alien => true
       | .list => n.lines.isEmpty
       | .footnote _ => n.lines.isEmpty
       | .plain => true) && FTree.cleanL cs
